@@ -9,7 +9,7 @@ func init() {
 			"an interval is flagged when the end record's error time is at/after the start time or the start record's error time equals its time; spot-price errors, zero or clamped prices stamp the error time with the block time; the record at-or-before a time is found by reverse iteration ending at that time; pruning never deletes the newest record before the keep time; new records update the most-recent and historical indexes together.",
 		NotCovered:  []string{"TWAP = time-weighted mean as a value (integral over price histories)", "bounds by min/max price", "reciprocity of the geometric directions", "precision"},
 		Assumptions: []string{"osmomath.Exp2 / log2 accuracy (C13)"},
-		MinObl:      49,
+		MinObl:      68,
 		Run:         runC10,
 	})
 }
@@ -65,6 +65,7 @@ func runC10(c *rules.Ctx) {
 	c.CallArg(T+"Keeper.EndBlock", "twap.Keeper.updateRecords", 2, "elem(twap.Keeper.getChangedPools(k,ctx))", "the pool updated is the changed pool")
 	// time keys are written and looked up in one canonical form
 	c.Returns("osmoutils.FormatTimeString", 0, "time.Time.Format(time.Time.Round(time.Time.UTC(t),0), \"2006-01-02T15:04:05.000000000\")", "record keys encode the time normalised to UTC (a caller's local-zone time must find the record written from block time)", "")
+	twapQueryRules(c)
 	twapKeyLayoutRules(c)
 	// record lookup
 	const GR = T + "Keeper.getRecordAtOrBeforeTime"
